@@ -214,7 +214,17 @@ func ensureBuild(verbose bool) {
 		}
 		gosum, _ := os.ReadFile(filepath.Join(repoDir, "go.sum"))
 		os.WriteFile(filepath.Join(hdir, "go.sum"), gosum, 0o644)
-		out, err = run(hdir, env, goBin, "test", "-c", "-vet=off", "-o", filepath.Join(buildDir, "harness.test.tmp"), ".")
+		out, err = run(hdir, env, goBin, "test", "-c", "-vet=off", "-tags", "replexport", "-o", filepath.Join(buildDir, "harness.test.tmp"), ".")
+		if err != nil {
+			// the REPL engine needs the generated export file; without it every other engine still builds
+			var out2 string
+			out2, err = run(hdir, env, goBin, "test", "-c", "-vet=off", "-o", filepath.Join(buildDir, "harness.test.tmp"), ".")
+			if err == nil {
+				fmt.Fprintf(os.Stderr, "vcheck: built without the REPL engine:\n%s\n", tail(out, 10))
+			} else {
+				out = out2
+			}
+		}
 		if err != nil {
 			lastErr = fmt.Sprintf("go test -c (%s): %v\n%s", level, err, tail(out, 60))
 			if o2, e2 := run(repoDir, ienv, goBin, "build", "./..."); e2 != nil {
